@@ -158,6 +158,35 @@ pub fn run(quick: bool, w: &mut Worker, stats: &mut Stats) {
             }
         }
     }
+    // (iv) three-rule grammars whose rules refer to each other in every small shape, one of them
+    // carrying a built-in's name (the validator's and the optimizer's walks over rule references)
+    {
+        let names = ["r", "NEWLINE", "eol"];
+        let shapes: [&dyn Fn(&str) -> String; 7] = [
+            &|x| x.to_string(),
+            &|x| format!("\"a\" | {x}"),
+            &|x| format!("{x}?"),
+            &|x| format!("(!{x} ~ ANY)*"),
+            &|x| format!("\"a\" ~ {x}"),
+            &|x| format!("{x} ~ \"a\""),
+            &|x| format!("{x}*"),
+        ];
+        let bodies: Vec<String> = names.iter().flat_map(|n| shapes.iter().map(move |f| f(n))).collect();
+        let mods: [&[&str]; 3] = if quick { [&["", "@"], &["", "_"], &["_"]] } else { [&["", "_", "@"], &["", "_", "@"], &["", "_", "@"]] };
+        for m0 in mods[0] {
+            for b0 in &bodies {
+                for m1 in mods[1] {
+                    for b1 in &bodies {
+                        for m2 in mods[2] {
+                            for b2 in &bodies {
+                                unit(w, stats, &format!("r = {m0}{{ {b0} }} NEWLINE = {m1}{{ {b1} }} eol = {m2}{{ {b2} }}"), "three-rules");
+                            }
+                        }
+                    }
+                }
+            }
+        }
+    }
     // (iii) nesting depth sweeps
     let depth = if quick { 256 } else { 512 };
     for n in [1usize, 2, 4, 8, 16, 32, 64, 128, 256, 512].into_iter().filter(|n| *n <= depth) {
